@@ -67,15 +67,31 @@ theorem subinterval_sequence_is_slice (P alph : List Char) (hnt : isNt alph = tr
       m ≠ .empty ∧ ans (extract P alph m) = some ((d.drop s).take (e - s)) :=
   sub_extract P alph hnt l h loc hl hW hd hno hlen s e hse he d hdta
 
-/-- T4a: an in-range slice `x[s:e]` of a consistent located sequence object (non-self-overlapping, non-empty
-    location) is answered, holds `str(x)[s:e]`, and its recorded location extracts exactly those letters. -/
+/-- T4a: EVERY unit-step slice `x[a:b]` / `x[a:b:1]` of a consistent located sequence object
+    (non-self-overlapping, non-empty location) is answered — whatever the bounds: `None`, negative, past the end,
+    reversed.  With the bounds normalised like Python's `slice.indices`
+      `rs = normStart n a` (`None ↦ 0`, negative `+ n`, clamped to `[0, n]`),
+      `re = normEnd n a b = max rs stop` (`None ↦ n`, same clamp; an empty slice is `[rs, rs)`),
+    the result holds `str(x)[rs:re]` and its recorded location extracts exactly those letters. -/
 theorem slice_keeps_location_consistent (P alph : List Char) (hnt : isNt alph = true) (x : SeqObj) (l : Location)
-    (loc : Loc) (hc : Consistent P alph x l loc) (hlen : 0 < loc.len) (s e : Nat) (hse : s ≤ e)
-    (he : e ≤ x.data.length) :
-    ∃ y m pst, getSlice x (some (s : Int)) (some (e : Int)) none = .ok y ∧
-      y.data = (x.data.drop s).take (e - s) ∧ y.par = some ⟨pst, some m⟩ ∧ WF m ∧ Within P m ∧
+    (loc : Loc) (hc : Consistent P alph x l loc) (hlen : 0 < loc.len) (a b c : Option Int)
+    (hstep : c = none ∨ c = some 1) :
+    ∃ y m pst, getSlice x a b c = .ok y ∧
+      y.data = (x.data.drop (normStart x.data.length a)).take
+        (normEnd x.data.length a b - normStart x.data.length a) ∧
+      y.par = some ⟨pst, some m⟩ ∧ WF m ∧ Within P m ∧
       locationStrand? m = some loc.strand ∧ ans (extract P alph m) = some y.data :=
-  slice_consistent P alph hnt x l loc hc hlen s e hse he
+  slice_consistent P alph hnt x l loc hc hlen a b c hstep
+
+/-- the normalised bounds are a sub-range of the text, and for in-range bounds they are the bounds themselves -/
+theorem slice_normalisation (n : Nat) (a b : Option Int) (s e : Nat) (hse : s ≤ e) (he : e ≤ n) :
+    (normStart n a ≤ normEnd n a b ∧ normEnd n a b ≤ n) ∧
+    (normStart n (some (s : Int)) = s ∧ normEnd n (some (s : Int)) (some (e : Int)) = e) ∧
+    (normStart n none = 0 ∧ normEnd n none none = n) :=
+  ⟨norm_bounds n a b, sliceIndices_plain n s e hse he, by
+    unfold normEnd normStart startOf stopOf; simp⟩
+example : normStart 8 (some (-3)) = 5 ∧ normEnd 8 (some (-3)) (some 100) = 8 ∧ normEnd 8 (some 6) (some 2) = 6 := by
+  decide
 
 -- non-vacuity of `Consistent`
 example : Consistent "ACgtRY-nK".toList "NT_EXTENDED_GAPPED".toList
@@ -129,25 +145,26 @@ theorem complement_map_total (alph : List Char) (hnt : isNt alph = true) :
   exact ⟨m, h1, map_lookup_eq alph m h2⟩
 example : isNt "NT_STRICT_UNKNOWN".toList = true := by decide +kernel
 
-/-! ### witnesses of the known findings (the modelled current code deviates at these inputs) -/
+/-! ### regressions of repaired defects, and the witness of the remaining finding -/
 
-/-- F-C03a: `seq[1:]` on a located sequence raises TypeError (`slice.stop` is `None`) — the property demands an
-    answer for an open-ended in-range slice -/
-theorem open_ended_slice_raises :
-    (match getSlice ⟨"ACGT".toList, some ⟨none, some (.single (0, 4) .plus)⟩⟩ (some 1) none none with
-     | .error .TypeError => true
-     | _ => false) = true ∧
-    okProgram "ACGT".toList "NT_STRICT".toList (.single (0, 4) .plus) [.sl (some 1) none none]
-      (progAns "ACGT".toList "NT_STRICT".toList (.single (0, 4) .plus) [.sl (some 1) none none]) = false := by
+/-- F-C03a (repaired in /repo): `seq[1:]`, `seq[:3]`, `seq[-2:]` on a located sequence are answered with a
+    consistent location -/
+theorem open_ended_slices_answered :
+    progAns "ACGT".toList "NT_STRICT".toList (.single (0, 4) .plus) [.sl (some 1) none none] =
+      some ⟨"CGT".toList, some (some .plus, some (.single (1, 4) .plus))⟩ ∧
+    progAns "ACGT".toList "NT_STRICT".toList (.single (0, 4) .minus) [.sl (some (-2)) none none] =
+      some ⟨"GT".toList, some (some .minus, some (.single (0, 2) .minus))⟩ ∧
+    okProgram "ACGT".toList "NT_STRICT".toList (.single (0, 4) .minus) [.sl (some (-2)) none none]
+      (progAns "ACGT".toList "NT_STRICT".toList (.single (0, 4) .minus) [.sl (some (-2)) none none]) = true := by
   decide +kernel
 
-/-- F-C03b: the slice step is ignored for the location: `seq[0:8:2]` holds every second letter but keeps the
-    whole interval as its location -/
-theorem stepped_slice_location_inconsistent :
-    progAns "ACGTACGT".toList "NT_STRICT".toList (.single (0, 8) .plus) [.sl (some 0) (some 8) (some 2)] =
-      some ⟨"AGAG".toList, some (some .plus, some (.single (0, 8) .plus))⟩ ∧
-    okProgram "ACGTACGT".toList "NT_STRICT".toList (.single (0, 8) .plus) [.sl (some 0) (some 8) (some 2)]
-      (progAns "ACGTACGT".toList "NT_STRICT".toList (.single (0, 8) .plus) [.sl (some 0) (some 8) (some 2)]) = false := by
+/-- F-C03b (repaired in /repo): a stepped slice of a located sequence is refused (it has no contiguous image);
+    without a parent location any step is accepted -/
+theorem stepped_slice_of_located_sequence_refused :
+    progAns "ACGTACGT".toList "NT_STRICT".toList (.single (0, 8) .plus) [.sl (some 0) (some 8) (some 2)] = none ∧
+    (match getSlice ⟨"ACGTACGT".toList, none⟩ (some 0) (some 8) (some 2) with
+     | .ok y => y.data == "AGAG".toList
+     | .error _ => false) = true := by
   decide +kernel
 
 /-- F-C15a seen from C03: with `U` in the parent, the reverse complement of a minus-strand sequence no longer
